@@ -54,7 +54,7 @@ class P(core.Prop):
     design_ref = '5/C10'
     rule = ('a real TorConfig bootstrapped over a real TorControlProtocol from a scripted Tor (table of 4-9 options '
             'covering every declared type incl. a *PortLines group (unset / auto / one / many lines, __<X> defaults), initial values set/unset, config/defaults '
-            'present or not); then 1-24 operations: assignments (valid and invalid values per type, names in random '
+            'present or not; attached by TorConfig(proto) or by TorConfig() + assignments + attach_protocol(); list elements are strings, ints (0 included) or the empty string); then 1-24 operations: assignments (valid and invalid values per type, names in random '
             'case; config.A = config.B with the tracked list read from another list option or from the option itself), in-place list operations on what a read returns (append/extend/insert/remove/pop/setitem, valid '
             'and invalid indices), saves answered 250 or 5xx, reads, needs_save(); 65% of the histories are steered '
             'clear of the two open finding classes, the rest are unconstrained; a boundary stream adds double '
@@ -83,13 +83,14 @@ class P(core.Prop):
 
     def kind(self, case, obs):
         f = finding_flags(case)
-        tag = 'clean' if not any(f) else '+'.join(n for n, x in zip(('F1', 'F3'), f) if x)
+        tag = 'clean' if not any(f) else '+'.join(n for n, x in zip(('F1', 'F3', 'F4'), f) if x)
         rej = any(o[0] == 'save' and o[1] is not None for o in case['ops'])
         return '%s/%s' % (tag, 'reject' if rej else 'accept-only')
 
     finding_preds = {
         'emptied_list_saved': lambda c, o: finding_flags(c)[0],
         'edit_while_detached': lambda c, o: finding_flags(c)[1],
+        'odd_element_saved': lambda c, o: finding_flags(c)[2],
     }
 
     # ------------------------------------------------------------------ generation
@@ -158,6 +159,12 @@ class P(core.Prop):
         return store, defaults
 
     def _elem(self, rng, k):
+        r = rng.random()
+        if r < 0.10:
+            # the integer style of the class docstring (conf.SOCKSPort = [9050, 1337]); 0 = "off"
+            return ['i', rng.choice([0, 0, 0, 9050, 1337, 1])]
+        if r < 0.13:
+            return ['s', '']
         if k == 'KComma':
             return ['s', rng.choice(COMMA_ELEMS)]
         return ['s', rng.choice(LINE_ELEMS)]
@@ -341,8 +348,26 @@ class P(core.Prop):
             else:
                 clean = r < 0.70
                 ops = self._history(rng, table, store, defaults, clean, rng.choice([1, 2, 3, 5, 8, 8, 12, 12, 16, 24]))
-            out.append({'table': table, 'store': store, 'defaults': defaults, 'ops': ops})
+            out.append({'table': table, 'store': store, 'defaults': defaults, 'ops': ops, 'pre': self._pre(rng, table)})
         return out
+
+    def _pre(self, rng, table):
+        """None = TorConfig(protocol); a list = TorConfig(), these assignments (nothing is validated yet: any value),
+        then attach_protocol(protocol) -- the txtorcon.launch() path"""
+        if rng.random() < 0.65:
+            return None
+        opts = options([tuple(r) for r in table])
+        pre = []
+        for cn, k in rng.sample(opts, min(len(opts), rng.choice([0, 1, 1, 2, 3]))):
+            r = rng.random()
+            if r < 0.6:
+                v = self._value(rng, k)
+            elif r < 0.8:
+                v = rng.choice([['b', True], ['i', 1000], ['s', 'anything'], ['i', 0]])
+            else:
+                v = ['l', [self._elem(rng, 'KLine') for _ in range(rng.choice([0, 1, 2]))]]
+            pre.append([cn, v])
+        return pre
 
     def _copies_pending(self, table, store, ops):
         """a copy whose source has a pending change is outside the envelope (Spec.C10.copy_of_pending)"""
@@ -393,7 +418,11 @@ class P(core.Prop):
             if len(tab) > 1:
                 st = dict((k, v) for k, v in case['store'].items() if k != n)
                 df = None if case['defaults'] is None else [d for d in case['defaults'] if d[0] != n]
-                yield dict(case, table=tab[:i] + tab[i + 1:], store=st, defaults=df)
+                pre = None if case.get('pre') is None else [p for p in case['pre'] if p[0] != n]
+                yield dict(case, table=tab[:i] + tab[i + 1:], store=st, defaults=df, pre=pre)
+        if case.get('pre'):
+            for i in range(len(case['pre'])):
+                yield dict(case, pre=case['pre'][:i] + case['pre'][i + 1:])
         for i, o in enumerate(ops):
             if o[0] == 'assign' and o[2][0] == 'l' and len(o[2][1]) > 1:
                 yield dict(case, ops=ops[:i] + [[o[0], o[1], ['l', o[2][1][:-1]]]] + ops[i + 1:])
